@@ -560,11 +560,14 @@ def _parse_parameter_value_element(lexer: PipelineLexer) -> ParameterType:
     # valid value elements are quoted strings, numbers, true|false, and "ident" type
     # strings
     match lexer.lex():
-        case Token(kind=SpecTokenKind.STRING_LIT, span=span):
+        case Token(kind=SpecTokenKind.STRING_LIT, span=span) as token:
             # string literals are converted to unescaped strings
             str_token = StringLiteral.from_span(span)
             assert str_token is not None
-            return str_token.string_contents
+            try:
+                return str_token.string_contents
+            except UnicodeDecodeError:
+                raise ArgSpecParseError(token, "String value is not valid UTF-8")
         case Token(kind=SpecTokenKind.NUMBER, span=span):
             # NUMBER is both float and int
             # if the token contains a `.` it's a float
